@@ -47,7 +47,7 @@ def analyse(ctx, prop, name, tr, summ, mism, mon, stats):
     ctx.cov["evaluations"] += summ.get("ops", 0)
     ctx.cov["traces_validated_against_impl"] += summ.get("cases", 0)
 
-def run(ctx, prop, modules, nontrivial_keys, quick=(1500, 50), thorough=(30000, 70), extra_runs=None, secret="fake", modes=((), ())):
+def run(ctx, prop, modules, nontrivial_keys, quick=(1500, 50), thorough=(30000, 70), extra_runs=None, secret="fake", modes=((), ()), pre_finish=None):
     ctx.extract()
     ctx.prove(modules)
     if ctx.tier == "thorough":
@@ -102,4 +102,5 @@ def run(ctx, prop, modules, nontrivial_keys, quick=(1500, 50), thorough=(30000, 
         "sequential histories; concurrency is C08/C14/C16"]
     ctx.trusted += ["go/cmd/hxenv + go/cmd/overlay (virtual clock injected by build overlay) + Driver/Envelope.lean (differential correspondence through the public API)",
                     "Spec/EnvelopeMon.lean monitors executed on the implementation's observations"]
+    if pre_finish: pre_finish(ctx)
     return ctx.finish(level="proof")
